@@ -535,16 +535,23 @@ def retry_c05(ctx, scn, tv, then):
     for o in failed:
         ctx.count("c05_retry_checks")
         if o not in started2:
-            touched = bool(faults.get(o, {}).get("touch"))
             st = g.by_id[tv.sid_of[o]]
+            # (a command that writes in place from its first instant has touched its outputs whenever it fails)
+            touched = bool(faults.get(o, {}).get("touch")) or bool(st.get("early"))
+            disc_only = False
             try:
                 _, reasons = model.expected_runs(g, tv.targets, tv.world_before, tv.recs_before, tv.clean)
-                why = "+".join(sorted(set(x.split(":")[0] for x in reasons.get(st["id"], [])))) or "none"
+                rs = reasons.get(st["id"], [])
+                why = "+".join(sorted(set(x.split(":")[0] for x in rs))) or "none"
+                disc_only = bool(rs) and all(":" in x and x.split(":", 1)[1] not in g.decl_inputs(st) for x in rs)
             except model.Invalid:
                 why = "?"
             sig = "C05/not-retried/%s/why=%s" % ("outputs-touched" if touched else "outputs-untouched", why)
             if touched and st["generator"]:
                 sig = "C05/not-retried/outputs-touched/generator"      # no log check at all for generator rules
+            if st.get("early") and st["deps"] == "depfile" and disc_only:
+                # the failed command had already truncated its depfile; what made it dirty was known only from there
+                sig = "C05/not-retried/depfile-truncated-by-failed-cmd"
             ctx.violation(sig,
                           "scenario %s choices=%s: %s failed (exit %s) and the next build did not retry it (%s)" %
                           (scn["id"], tv.trace.get("_choices"), o, faults.get(o, {}).get("exit"), t2["result"]),
